@@ -153,6 +153,10 @@ def cases():
         ("coroutine_function", "acond", ("create", "ValueError")),
         ("partial_of_coroutine_function", "functools.partial(acond)", ("create", "ValueError")),
         ("partial_of_coroutine_function_with_bound_keyword", "functools.partial(acond2, flag=True)", ("create", "ValueError")),
+        # other callables whose call gives an (always truthy) asynchronous object instead of a verdict
+        ("async_generator_function", "agencond", ("create", "ValueError")),
+        ("generator_based_coroutine_function", "gcocond", ("create", "ValueError")),
+        ("partial_of_async_generator_function", "functools.partial(agencond)", ("create", "ValueError")),
         ("only_var_positional", "lambda *args: True", ("create", "ValueError")),
         ("self_and_var_positional", "lambda self, *others: True", ("create", "ValueError")),
         ("self_and_var_keyword", "lambda self, **kw: True", ("create", "ValueError")),
@@ -176,7 +180,8 @@ def cases():
 def run_case(case, acc):
     label = case["label"]
     feats = {"label": label.split("/")[0], "kind": case["kind"], "misuse": case["misuse"], "decorators": "+".join(case["decos"])}
-    ns = core.load_source(HDR + "async def acond(self):\n    return True\nasync def acond2(self, flag=False):\n    return True\n", "c19")
+    ns = core.load_source(HDR + "async def acond(self):\n    return True\nasync def acond2(self, flag=False):\n    return True\n"
+                          "import types\nasync def agencond(self):\n    yield True\n@types.coroutine\ndef gcocond(self):\n    yield\n    return True\n", "c19")
     stage, exc = "ok", None
     try:
         def go():
